@@ -285,7 +285,13 @@ type c17Path struct {
 }
 
 var c17Leaves = []string{"str", "mapss", "ints", "array", "nilptr", "int", "mapsi"}
-var c17Nest = []string{"mapany", "sliceany", "struct", "ptr", "ptrptr", "mapstruct", "ptrmap", "ptrslice"}
+var c17Nest = []string{"mapany", "sliceany", "struct", "ptr", "ptrptr", "mapstruct", "ptrmap", "ptrslice", "embed"}
+
+// c17Outer embeds c17Path: Field and Tagged (json:"tag") are promoted fields
+type c17Outer struct {
+	c17Path
+	Own string `json:"own"`
+}
 
 // build value from a descriptor like "mapany>sliceany>str"
 func c17Build(desc string) any {
@@ -328,6 +334,8 @@ func c17Build(desc string) any {
 			sl := []any{v, "second"}
 			pp := &sl
 			v = &pp
+		case "embed":
+			v = c17Outer{c17Path: c17Path{Field: v, Tagged: v}, Own: "o"}
 		case "mapstruct":
 			v = map[string]c17Path{"k": {Field: v}, "0": {Field: "zero-key"}}
 		}
@@ -366,15 +374,21 @@ func refStep(cur any, step string) (any, bool, bool) {
 		}
 		return rv.Index(i).Interface(), true, true
 	case reflect.Struct:
-		t := rv.Type()
-		for i := 0; i < t.NumField(); i++ {
-			f := t.Field(i)
+		// the fields Go itself lets a selector reach: own fields and the promoted fields of embedded structs
+		for _, f := range reflect.VisibleFields(rv.Type()) {
 			tag := strings.Split(f.Tag.Get("json"), ",")[0]
+			if f.Anonymous && f.Name != step {
+				continue
+			}
 			if f.Name == step || (tag != "" && tag == step) {
 				if !f.IsExported() {
 					return nil, false, true
 				}
-				return rv.Field(i).Interface(), true, true
+				fv, err := rv.FieldByIndexErr(f.Index)
+				if err != nil {
+					return nil, false, true
+				}
+				return fv.Interface(), true, true
 			}
 		}
 		return nil, false, true
